@@ -119,10 +119,55 @@ def run(ctx):
     # the same element in the same storage through a history of other storages (cache / by-name routes)
     hist_pass(ctx)
     registered_pass(ctx)
+    highdim_inverse_pass(ctx)
     # the same element in different key orders through the by-name routes (wrapper, registered), incl. two-digit keys in d = 5, 6
     from harness.c09 import collision_search
     collision_search(ctx)
-    ctx.assumptions = ['for the iterative inverse (d >= 6) the loop exit depends on the stored symbolic key set; not covered in the quick tier']
+    ctx.assumptions = ['the iterative inverse (d >= 6) is exercised on sparse operands only (dense operands take minutes per pattern)']
+
+
+def highdim_inverse_pass(ctx):
+    """the iterative inverse of d >= 6 (also behind `/`, reflected `/` and negative powers): sparse operands whose square is not a
+    scalar, with and without a stored scalar blade, permuted and zero-padded: the same element gives the same inverse
+    whatever its storage, and x * x.inv() = 1 (floating point, compared to 1e-7)"""
+    from kingdon import MultiVector
+    rng = ctx.rng
+    def asd(mv):
+        return {int(k): float(v) for k, v in zip(mv.keys(), mv.values()) if abs(float(v)) > 1e-9}
+    def near(a, b):
+        return set(a) == set(b) and all(abs(a[k] - b[k]) <= 1e-7 * max(1.0, abs(b[k])) for k in a)
+    for sig in ([1] * 6, [1, 1, 1, 1, -1, -1]) + (() if ctx.quick else ([1] * 7,)):
+        alg = make_algebra(list(sig))
+        pats = [(3, 12), (5, 10), (6, 24), (3, 12, 33), (1, 6), (3, 48)]
+        for keys in (pats if not ctx.quick else rng.sample(pats, 4)):
+            vals = {k: float(rng.choice((2, 3, 5, 7, 1.5))) for k in keys}
+            layouts = {'reference': list(keys), 'reversed': list(reversed(keys)), 'zero-scalar-first': [0] + list(keys), 'zero-scalar-last': list(keys) + [0],
+                       'zero-blade-padding': list(keys) + [63, 9]}
+            ops = {'inv': lambda x: x.inv(), '1/x': lambda x: 1 / x, 'x**-1': lambda x: x ** -1, 'x**-2': lambda x: x ** -2}
+            for oname, fn in ops.items():
+                ref = None
+                for lname, ks_ in layouts.items():
+                    x = MultiVector.fromkeysvalues(alg, tuple(ks_), [vals.get(k, 0.0) for k in ks_])
+                    case = {'sig': list(sig), 'op': oname, 'keys': list(keys), 'values': [vals[k] for k in keys], 'layout': lname, 'stored_keys': ks_}
+                    ctx.case(case, tag='highdim-inverse')
+                    try:
+                        got = asd(fn(x))
+                    except ZeroDivisionError:
+                        got = 'ZeroDivisionError'
+                    except Exception as ex:
+                        got = 'raises ' + type(ex).__name__
+                    if ref is None:
+                        ref = got
+                        if oname == 'inv' and not isinstance(got, str):
+                            one = asd(x * fn(x))
+                            if not near(one, {0: 1.0}):
+                                ctx.violation('inverse', case, {0: 1.0}, one, key='inv:highdim:not-an-inverse')
+                        continue
+                    if isinstance(got, str) or isinstance(ref, str):
+                        if got != ref:
+                            ctx.violation('storage-dependent', case, str(ref)[:200], str(got)[:200], key=f'{oname}:storage:highdim')
+                    elif not near(got, ref):
+                        ctx.violation('storage-dependent', case, str(ref)[:200], str(got)[:200], key=f'{oname}:storage:highdim')
 
 
 def registered_pass(ctx):
